@@ -511,7 +511,101 @@ func bloomTxOps(r *core.Rand) (ops []string, class string) {
 	return ops, class
 }
 
+// heterogeneous transaction: every output of a different script class, several of them matching
+// (first / middle / last position), matching element among the inputs at a chosen position
+func bloomMultiOps(r *core.Rand) []string {
+	mk := func(kind int) []byte {
+		b := txscript.NewScriptBuilder()
+		switch kind {
+		case 0:
+			b.AddData(bloomPubKey(r, true)).AddOp(txscript.OP_CHECKSIG)
+		case 1:
+			b.AddData(bloomPubKey(r, false)).AddOp(txscript.OP_CHECKSIG)
+		case 2:
+			b.AddInt64(1).AddData(bloomPubKey(r, true)).AddData(bloomPubKey(r, false)).AddInt64(2).AddOp(txscript.OP_CHECKMULTISIG)
+		case 3:
+			b.AddOp(txscript.OP_DUP).AddOp(txscript.OP_HASH160).AddData(r.Bytes(20)).AddOp(txscript.OP_EQUALVERIFY).AddOp(txscript.OP_CHECKSIG)
+		case 4:
+			b.AddOp(txscript.OP_HASH160).AddData(r.Bytes(20)).AddOp(txscript.OP_EQUAL)
+		case 5:
+			b.AddOp(txscript.OP_RETURN).AddData(r.Bytes(1 + r.Intn(30)))
+		case 6:
+			b.AddOp(txscript.OP_0).AddData(r.Bytes(32))
+		default:
+			b.AddInt64(2).AddData(bloomPubKey(r, true)).AddData(bloomPubKey(r, true)).AddData(bloomPubKey(r, true)).AddInt64(3).AddOp(txscript.OP_CHECKMULTISIG)
+		}
+		s, _ := b.Script()
+		return s
+	}
+	kinds := []int{0, 1, 2, 3, 4, 5, 6, 7}
+	for i := len(kinds) - 1; i > 0; i-- { // shuffle
+		j := r.Intn(i + 1)
+		kinds[i], kinds[j] = kinds[j], kinds[i]
+	}
+	nout := 3 + r.Intn(6)
+	m := wire.NewMsgTx(int32(1 + r.Intn(2)))
+	nin := 1 + r.Intn(4)
+	for i := 0; i < nin; i++ {
+		var h chainhash.Hash
+		copy(h[:], r.Bytes(32))
+		m.AddTxIn(wire.NewTxIn(wire.NewOutPoint(&h, bloomRandIndex(r)), bloomSigScript(r), nil))
+	}
+	for i := 0; i < nout; i++ {
+		m.AddTxOut(wire.NewTxOut(int64(1000+i), mk(kinds[i])))
+	}
+	txid := btcutil.NewTx(m).Hash()
+	var ops []string
+	// matching outputs: first, last, a middle one, or a random subset of >= 2
+	var pick []int
+	switch r.Intn(4) {
+	case 0:
+		pick = []int{0, nout - 1}
+	case 1:
+		pick = []int{0, nout / 2, nout - 1}
+	case 2:
+		pick = []int{nout - 1, nout - 2}
+	default:
+		for i := 0; i < nout; i++ {
+			if r.Bool() {
+				pick = append(pick, i)
+			}
+		}
+	}
+	for _, i := range pick {
+		if ps, err := txscript.PushedData(m.TxOut[i].PkScript); err == nil && len(ps) > 0 {
+			ops = append(ops, "a:"+hexTok(ps[len(ps)-1-r.Intn(len(ps))%len(ps)]))
+		}
+	}
+	switch r.Intn(5) { // sometimes (also / only) an input-side element at a chosen position
+	case 0:
+		in := m.TxIn[nin-1]
+		ops = append(ops, fmt.Sprintf("ao:%s:%d", hex.EncodeToString(in.PreviousOutPoint.Hash[:]), in.PreviousOutPoint.Index))
+	case 1:
+		if ps, err := txscript.PushedData(m.TxIn[nin-1].SignatureScript); err == nil && len(ps) > 0 {
+			ops = append(ops, "a:"+hexTok(ps[len(ps)-1]))
+		}
+	}
+	ops = append(ops, txOpTok(m))
+	for i := 0; i <= nout; i++ {
+		ops = append(ops, fmt.Sprintf("mo:%s:%d", hex.EncodeToString(txid[:]), i))
+	}
+	return ops
+}
+
 func genBloom(g *core.Gen) {
+	for i := 0; i < g.N(160, 6000); i++ {
+		r := g.R
+		fl := []int{0, 1, 2, 1, 2, 3, 255}[i%7]
+		ops := bloomMultiOps(r)
+		rec(g, fmt.Sprintf("bloom-tx-multi-fl%d", min(fl, 3)), true, fmt.Sprintf("C20 bloom z%d %d %d %d %s",
+			300+r.Intn(400), 1+r.Intn(6), bloomRandTweak(r), fl, opsTok(ops)))
+	}
+	// every value of the one-byte update-flags discriminator
+	for fl := 0; fl < 256; fl++ {
+		r := g.R
+		ops := bloomMultiOps(r)
+		rec(g, "bloom-flags-sweep", true, fmt.Sprintf("C20 bloom z%d %d %d %d %s", 400, 3, r.U32(), fl, opsTok(ops)))
+	}
 	r := g.R
 	// raw murmur: every tail length, seeds incl. the BIP37 multiples
 	seeds := []uint32{0, 1, 0xffffffff, 0xfba4c795, 0xf7498f2a, 0x80000000}
